@@ -55,7 +55,8 @@ MAP
   # DJ
   LAYER
     NAME "l2" # DK
-    /* DL */
+    /* DL
+       second line */
     CLASS
       # DM
       STYLE
@@ -109,6 +110,9 @@ lines = PP._format(d)
 exp = {EXP}
 if lines != exp:
     return False
+# a printer with newlinechar CRLF: separate comments are joined with CRLF, the text of each comment (a line break inside a C comment included) is untouched
+if PPW._format(d) != {EXPW}:
+    return False
 # comment-free content is that of a plain load, and printing it gives the same lines minus the comments
 if tsp.plain(d) != PLAIN:
     return False
@@ -145,7 +149,13 @@ def _cover(name, text, expect, L):
         params += cs
         pre += [f"({n} >= 33) & ({n} < 0x1680) & ({n} != 0x85) & ({n} != 0xa0)" for n, _ in cs]   # no white space: the parser strips comment text
         body = chr_expr(c.lower() + "_", L)
-        if f"/* {c} */" in text:
+        if f"/* {c}\n" in text:
+            # a C comment over two lines: written as it stands whatever the printer's newlinechar
+            full = re.search(r"/\* " + c + r"\n[^*]*\*/", text).group(0)
+            pre.append(" & ".join(f"({n} != 42)" for n, _ in cs))
+            build.append(f"v_{c} = '/* ' + {body} + {full[5:]!r}")
+            sub.append(f"{full!r}: v_{c}")
+        elif f"/* {c} */" in text:
             # a C comment: its text must not contain the terminator
             pre.append(" & ".join(f"({n} != 42)" for n, _ in cs))
             build.append(f"v_{c} = '/* ' + {body} + ' */'")
@@ -155,10 +165,11 @@ def _cover(name, text, expect, L):
             build.append(f"v_{c} = '# ' + {body}")
             sub.append(f"'# {c}': v_{c}")
     exp = "[" + ", ".join(_expr(ln) for ln in expect) + "]"
+    expw = "[" + ", ".join(_expr(ln.replace("\n", "\r\n")) for ln in expect) + "]"
     other = "# o1\nMAP\n  NAME 'o' # o2\n  LAYER\n    TYPE POINT\n    # o3 unattached\n  END\n  # o4 unattached\nEND\n# o5 after the end\n" + "\n" * 20 + "# o6 far below\n"
-    defs = f"\nTEXT = {text!r}\nOTHER = {other!r}\nPLAIN = tsp.plain(mappyfile.loads(TEXT))\n"
+    defs = f"\nTEXT = {text!r}\nOTHER = {other!r}\nPLAIN = tsp.plain(mappyfile.loads(TEXT))\nPPW = tsp.printer(tsp.ALL_TYPES, indent=4, quote='\"', newlinechar='\\r\\n')\n"
     params = params + [("hist", "bool")]
-    src = PRELUDE + defs + harness("h", params, conj(pre), BODY.format(BUILD="\n".join(build), SUB="{" + ", ".join(sub) + "}", EXP=exp))
+    src = PRELUDE + defs + harness("h", params, conj(pre), BODY.format(BUILD="\n".join(build), SUB="{" + ", ".join(sub) + "}", EXP=exp, EXPW=expw))
     return Ob(name=f"C14-PLACE/{name}", source=src, pct=900, timeout=1000,
               meta={"desc": f"{len(comments)} comments with symbolic text ({L} code points each) at the documented placements: full line list vs committed expectation; content == plain load",
                     "functions": ["Parser._assign_comments", "CommentsTransformer", "PrettyPrinter._format"], "stubs": ["comment substitution"]})
